@@ -129,6 +129,9 @@ class Ser:
             return self.values[self.index.index(key)]
         raise KeyError(key)
 
+    def isna(self):
+        return Ser([_is_nan(a) or a is None for a in self.values], self.index)
+
     def abs(self):
         return Ser([abs(a) for a in self.values], self.index)
 
@@ -349,6 +352,12 @@ class Frame:
     @property
     def at(self):
         return _At(self)
+
+    def __getattr__(self, name):
+        cols = self.__dict__.get("cols", {})
+        if name in cols:
+            return Ser(cols[name], self.index)
+        raise AttributeError(name)
 
     def itertuples(self, index=True, name="Pandas"):
         if index or name is not None:
